@@ -674,7 +674,8 @@ def load(job):
             elif isinstance(v, type) and issubclass(v, ctypes._SimpleCData):
                 res["aliases"][k] = tdesc(v)
         ctx = C.get_context()
-        res["ctx"] = {"MT": dict(ctx.MT), "MID": dict(ctx.MID), "n_MDF": len(ctx.MDF), "n_SDF": len(ctx.SDF)}
+        plain = lambda d: {k: (v if isinstance(v, (int, float, str)) else repr(v)) for k, v in d.items()}
+        res["ctx"] = {"MT": plain(ctx.MT), "MID": plain(ctx.MID), "n_MDF": len(ctx.MDF), "n_SDF": len(ctx.SDF)}
         return res
     finally:
         sys.modules.pop(modname, None)
@@ -714,7 +715,12 @@ for line in sys.stdin:
     except BaseException as e:
         r = {"ok": False, "error": {"type": "WorkerError", "msg": "".join(traceback.format_exception(e))[-800:], "line": None, "text": None},
              "globals": {}, "classes": {}, "aliases": {}}
-    out.write(json.dumps(r) + "\n")
+    try:
+        text = json.dumps(r)
+    except BaseException as e:
+        text = json.dumps({"ok": False, "error": {"type": "WorkerError", "msg": "dump not serialisable: " + str(e)[:300], "line": None, "text": None},
+                           "globals": {}, "classes": {}, "aliases": {}})
+    out.write(text + "\n")
     out.flush()
 '''
 
